@@ -7,5 +7,14 @@ def handle (fn : String) (args : List Json) : String :=
   | "_calc_checksum" => match args with
     | [a0] => (do let x0 ← Wire.decStr a0; pure (Wire.respondWith Wire.encInt (Gen.cz_bankaccount._calc_checksum x0)) : Option String).getD "badargs"
     | _ => "badargs"
+  | "_split" => match args with
+    | [a0] => (do let x0 ← Wire.decStr a0; pure (Wire.respondWith (Wire.encT3 (Wire.encOpt Wire.encStr) Wire.encStr Wire.encStr) (Gen.cz_bankaccount._split x0)) : Option String).getD "badargs"
+    | _ => "badargs"
+  | "compact" => match args with
+    | [a0] => (do let x0 ← Wire.decStr a0; pure (Wire.respondWith Wire.encStr (Gen.cz_bankaccount.compact x0)) : Option String).getD "badargs"
+    | _ => "badargs"
+  | "format" => match args with
+    | [a0] => (do let x0 ← Wire.decStr a0; pure (Wire.respondWith Wire.encStr (Gen.cz_bankaccount.format x0)) : Option String).getD "badargs"
+    | _ => "badargs"
   | _ => "nofunc"
 end Driver.D_cz_bankaccount
